@@ -1,5 +1,6 @@
 import IV.Model.Proto
 import IV.Model.CleanLine
+import IV.Model.CleanSpecDecl
 open IV IV.Proto IV.CleanLine
 
 /-! line protocol for C08 (glue, not model)
@@ -17,6 +18,12 @@ open IV IV.Proto IV.CleanLine
         mode L (list) | S (single string) | P (spec written by a provider; `empty` = ContentException); flags = obfuscate obfHost obfMac obfIpv6 noRedact width
         a line is `=text` or `=text/=found6/=found6…`
         → `ok` TAB `=line`…   |  `ok` TAB `none`  |  `err:index` | `err:table` | `dom`
+
+
+  cleand flags fqdn declNoObf relPath rmShape keys pats keywords filters ipT hostT macT ip6T maxLen line…
+        a spec written under a RegistryPoint declaration: flags = obfuscate obfHost obfMac obfIpv6 declNoRedact filterable preFiltered;
+        declNoObf = `N` (not declared) or items; rmShape = A (absent) | L (list: pats are plain) | D (mapping: keys, pats = value of
+        'regex') | K (mapping without 'regex': keys); → as mode P of `clean`
 
 lists are ','-separated items, each item starts with '=', the empty list is `-`.
 -/
@@ -137,6 +144,39 @@ def handleClean (mode flags fqdn noObf pats kws allow ipT hostT macT ip6T maxLen
     | _, _, _, _, _, _ => "bad-op"
   | _, _, _, _, _, _ => "bad-op"
 
+def decOptItems (f : String) : Option (Option (List Str)) :=
+  if f = "N" then some none else (decItems f).map some
+
+def handleCleanD (flags fqdn dno relPath shape keys pats kws filters ipT hostT macT ip6T maxLen : String)
+    (lines : List String) : String :=
+  match flagsOf flags, decStr fqdn, decOptItems dno, decStr relPath, decItems keys, decPats pats, decItems kws, decAllow filters with
+  | some [ob, oh, om, o6, nr, fl, pf], some fqdn, some dno, some relPath, some keys, some pats, some kws, some (some filters) =>
+    match decTable ipT, decTable hostT, decTable macT, decTable ip6T, decNat maxLen, lines.mapM decLine with
+    | some ipT, some hostT, some macT, some ip6T, some maxLen, some lines =>
+      let rm : Option (RmPatterns Pat) :=
+        if shape = "A" then some .absent
+        else if shape = "L" then (pats.mapM (fun (p : Pat) => match p with | Pat.plain k => some k | _ => none)).map RmPatterns.list
+        else if shape = "D" then some (.dict keys (some pats))
+        else if shape = "K" then some (.dict keys none)
+        else none
+      match rm with
+      | none => "bad-op"
+      | some rm =>
+      let cfg : Cfg := ⟨cfgPats id rm, kws, ob, oh, om, o6, fqdn, maxLen⟩
+      let tb : Tables := ⟨ipT, hostT, macT, ip6T⟩
+      let d : SpecDecl := ⟨dno, nr, fl⟩
+      let dom := inDomain fqdn && pats.all patDomain && keys.all inDomain && kws.all inDomain && tblDomain ipT && tblDomain hostT
+        && tblDomain macT && tblDomain ip6T && lines.all (fun l => inDomain l.1 && l.2.all inDomain)
+        && filters.all (fun kv => inDomain kv.1) && inDomain relPath
+      if !dom then "dom" else
+      let lines := if fl && pf then preFilter (filters.map Prod.fst) lines else lines
+      match specCleanDecl Pat.hit cfg tb d relPath filters lines with
+      | .ok (some outs) => "\t".intercalate ("ok" :: outs.map (fun l => "=" ++ encStr (chars l)))
+      | .ok none => "empty"
+      | .error e => showErr e
+    | _, _, _, _, _, _ => "bad-op"
+  | _, _, _, _, _, _, _, _ => "bad-op"
+
 def handle (fs : List String) : String :=
   match fs with
   | ["cls", n] =>
@@ -187,6 +227,8 @@ def handle (fs : List String) : String :=
     | none => "bad-op"
   | "clean" :: mode :: flags :: fqdn :: noObf :: pats :: kws :: allow :: ipT :: hostT :: macT :: ip6T :: maxLen :: lines =>
     handleClean mode flags fqdn noObf pats kws allow ipT hostT macT ip6T maxLen lines
+  | "cleand" :: flags :: fqdn :: dno :: relPath :: shape :: keys :: pats :: kws :: filters :: ipT :: hostT :: macT :: ip6T :: maxLen :: lines =>
+    handleCleanD flags fqdn dno relPath shape keys pats kws filters ipT hostT macT ip6T maxLen lines
   | _ => "bad-op"
 
 def main : IO Unit := serve handle
